@@ -79,6 +79,8 @@ def run(ctx):
         one(ctx, rng, xr, dask, ops, names)
     for i, rng in ctx.cases("combined", ctx.n(60, 1500)):
         combined(ctx, rng, xr, dask, ops)
+    for i, rng in ctx.cases("fits", ctx.n(24, 600)):
+        fits(ctx, rng, xr)
     tr.stats()
     sys.setswitchinterval(1e-5)   # multiply GIL hand-offs between native calls
     for i, rng in ctx.cases("stress", ctx.n(32, 400)):
@@ -202,6 +204,61 @@ def combined(ctx, rng, xr, dask, ops):
     rec.ok("combined", key)
 
 
+def fits(ctx, rng, xr):
+    """fit_jonswap / fit_gaussian of slowly varying sea states (consecutive records alike): the fitted parameters must not
+    depend on how the records are grouped into chunks or on the scheduler (evaluation order)."""
+    from wavespectra.construct.frequency import jonswap
+    rec = ctx.rec
+    nt, ns = int(rng.integers(3, 7)), int(rng.integers(2, 5))
+    f = 0.04 * 1.1 ** np.arange(22)
+    th = np.arange(0.0, 360.0, 45.0)
+    fp0, hs0, g0 = float(rng.uniform(0.08, 0.15)), float(rng.uniform(1, 4)), float(rng.uniform(1.2, 4))
+    A = np.zeros((nt, ns, len(f), len(th)))
+    for it in range(nt):
+        for js in range(ns):
+            fp = fp0 * (1 + 0.02 * it + 0.015 * js)
+            e1 = jonswap(freq=xr.DataArray(f, dims=["freq"], coords={"freq": f}), fp=fp, hs=hs0 * (1 + 0.05 * js), gamma=g0 * (1 + 0.1 * it)).values
+            e1 = e1 * (1 + 0.03 * rng.standard_normal(len(f))).clip(0.5, 1.5)
+            A[it, js] = e1[:, None] * (np.cos(np.radians(th - 40.0 * js) / 2) ** 4)[None, :] / 100.0
+    x = gen.make_da(A, f, th, ["time", "site"], [nt, ns])
+    which = str(rng.choice(["jonswap", "gaussian"]))
+
+    def call(y):
+        fn = y.spec.fit_jonswap if which == "jonswap" else y.spec.fit_gaussian
+        return fn(spectra=False, params=True)
+
+    import warnings
+    with warnings.catch_warnings():
+        warnings.simplefilter("ignore")
+        try:
+            R0 = call(x).compute()
+        except Exception as e:
+            rec.skip("fits", "in-memory fit raised %s" % type(e).__name__)
+            return
+        for ch in ({"site": 1}, {"time": 1}, {"time": 1, "site": 1}, {"time": 2}):
+            sched, nw = SCHEDS[int(rng.integers(len(SCHEDS)))]
+            key = "fit_%s|chunks=%s|%s%d" % (which, "+".join(sorted(ch)), sched, nw)
+            try:
+                kw = {"scheduler": sched}
+                if sched == "threads":
+                    kw["num_workers"] = nw
+                Rc = call(x.chunk(ch)).compute(**kw)
+            except Exception as e:
+                rec.bad("fits", key, {"raised": repr(e)[:300]}, "raises-on-chunked-input")
+                continue
+            bad = None
+            for v in R0.data_vars:
+                a, b = np.asarray(R0[v].values, dtype="float64"), np.asarray(Rc[v].transpose(*R0[v].dims).values, dtype="float64")
+                same = (np.isnan(a) & np.isnan(b)) | (np.abs(a - b) <= 1e-7 * np.abs(a))
+                if not same.all():
+                    bad = (v, float(np.nanmax(np.abs(a - b) / np.abs(a))))
+                    break
+            if bad is None:
+                rec.ok("fits", key)
+            else:
+                rec.bad("fits", key, {"parameter": bad[0], "max_relative_difference": bad[1], "chunks": ch}, "chunked-result-differs")
+
+
 def stress(ctx, rng, xr, dask, tr):
     """Several datasets (same or different grid shapes) partitioned at once by a thread pool."""
     rec = ctx.rec
@@ -215,17 +272,35 @@ def stress(ctx, rng, xr, dask, tr):
         shapes[1] = (shapes[0][1], shapes[0][0])     # transposed shape: same nk*nth, different layout
     lazies, refs = [], []
     ntime = int(rng.integers(12, 40))
-    for (nf, nd) in shapes:
-        f = np.linspace(0.04, 0.4, nf)
-        th = np.arange(nd) * (360.0 / nd)
+    method = str(rng.choice(["ptm3", "hp01"]))
+    if method == "hp01" and rng.random() < 0.7:
+        shapes = [base] * nds          # equal shapes, different grids: state keyed on the shape alone is shared wrongly
+    for kk, (nf, nd) in enumerate(shapes):
+        # same shape does not mean same grid: each dataset has its own frequency range and direction offset
+        f = np.linspace(0.04 * (1 + 0.07 * kk), 0.4 * (1 + 0.05 * kk), nf)
+        th = (np.arange(nd) * (360.0 / nd) + (kk % 2) * 180.0 / nd) % 360.0
         A = np.array([gen.spectrum(rng, f, th, "multimodal")[0] for _ in range(ntime)])
         x = gen.make_da(A, f, th, ["time"], [ntime], dtype="float32")
         parts = int(rng.integers(2, 5))
-        refs.append(x.spec.partition.ptm3(parts=parts).values)
-        lazies.append(x.chunk({"time": 1}).spec.partition.ptm3(parts=parts))
+        if method == "hp01":
+            co_ = {"time": x.time}
+            w_ = xr.DataArray(np.full(ntime, 8.0), dims=["time"], coords=co_)
+            wd_ = xr.DataArray(np.full(ntime, 200.0), dims=["time"], coords=co_)
+            dp_ = xr.DataArray(np.full(ntime, 60.0), dims=["time"], coords=co_)
+            try:
+                refs.append(x.spec.partition.hp01(w_, wd_, dp_, swells=parts).values)
+            except Exception:
+                continue        # hp01 is experimental: no swell partition on this dataset
+            lazies.append(x.chunk({"time": 1}).spec.partition.hp01(w_, wd_, dp_, swells=parts))
+        else:
+            refs.append(x.spec.partition.ptm3(parts=parts).values)
+            lazies.append(x.chunk({"time": 1}).spec.partition.ptm3(parts=parts))
+    if len(lazies) < 2:
+        rec.skip("stress", "fewer than two datasets could be partitioned")
+        return
     tr.stats()
     nw = int(rng.choice([2, 4, 8, 16]))
-    key = "stress|%s|workers=%d|datasets=%d" % ("mixed-shapes" if mixed else "one-shape", nw, nds)
+    key = "stress|%s|%s|workers=%d|datasets=%d" % (method, "mixed-shapes" if mixed else "one-shape", nw, len(lazies))
     reps = 5
     for r in range(reps):
         try:
